@@ -12,8 +12,16 @@
 #include <vector>
 #include <map>
 #include <functional>
+#include <cstdlib>
 
 #include "vd_common.h"
+#include "uscxml/Interpreter.h"
+#include <thread>
+#include <mutex>
+#include <condition_variable>
+#include <deque>
+#include <unistd.h>
+#include <chrono>
 
 using namespace uscxml;
 
@@ -22,6 +30,37 @@ using namespace uscxml;
 namespace gen_c_copy {
 using namespace uscxml;
 #include "gen_c_namematch.inc"
+}
+
+static std::mutex reap_m;
+static std::condition_variable reap_cv;
+static std::deque<uscxml::Interpreter*> reap_q;
+static bool reap_started = false;
+static void reap_loop() {
+	for (;;) {
+		uscxml::Interpreter* in;
+		{
+			std::unique_lock<std::mutex> lk(reap_m);
+			while (reap_q.empty()) reap_cv.wait(lk);
+			in = reap_q.front();
+		}
+		delete in; // may block for ever
+		{
+			std::unique_lock<std::mutex> lk(reap_m);
+			reap_q.pop_front();
+			reap_cv.notify_all();
+		}
+	}
+}
+void vd_reap(uscxml::Interpreter* in) {
+	std::unique_lock<std::mutex> lk(reap_m);
+	if (!reap_started) { reap_started = true; std::thread(reap_loop).detach(); }
+	reap_q.push_back(in);
+	reap_cv.notify_all();
+}
+static void reap_drain(int ms) {
+	std::unique_lock<std::mutex> lk(reap_m);
+	reap_cv.wait_for(lk, std::chrono::milliseconds(ms), [] { return reap_q.empty(); });
 }
 
 std::map<std::string, vd_cmd_t>& vd_commands() {
@@ -43,13 +82,14 @@ VD_REGISTER(matchc, cmd_matchc)
 
 int main(int argc, char** argv) {
 	std::ios::sync_with_stdio(false);
+	setenv("USCXML_NOCACHE_FILES", "true", 1);
 	std::string line;
 	while (std::getline(std::cin, line)) {
 		std::vector<std::string> a;
 		std::istringstream iss(line);
 		std::string t;
 		while (iss >> t) a.push_back(t);
-		if (a.empty()) { std::cout << "\n"; continue; }
+		if (a.empty()) { std::cout << "@@\n"; continue; }
 		auto it = vd_commands().find(a[0]);
 		std::string out;
 		if (it == vd_commands().end()) out = "ERR unknown command";
@@ -58,8 +98,10 @@ int main(int argc, char** argv) {
 			catch (std::exception& e) { out = std::string("EXC ") + e.what(); }
 			catch (...) { out = "EXC unknown"; }
 		}
-		std::cout << out << "\n";
+		std::cout << "@@" << out << "\n";
 		std::cout.flush();
 	}
-	return 0;
+	std::cout.flush();
+	reap_drain(300);
+	_exit(0);
 }
